@@ -109,9 +109,11 @@ class DMaskedCol(Stub):
 class DIndex(Stub):
     def __init__(self, rows: Rows, of: Any = None):
         self.rows, self.of = rows, of
-        self.month = Opaque("index.month")
-        self.dayofweek = Opaque("index.dayofweek")
-        self.weekday = Opaque("index.weekday")
+        from rules.colterms import CT
+        self.month = CT("index.month")
+        self.dayofweek = CT("index.dayofweek")
+        self.weekday = CT("index.dayofweek")   # DatetimeIndex.weekday is an alias of dayofweek
+        self.day_of_week = CT("index.dayofweek")
         self.tz = Opaque("index.tz")
 
     def _abs_isinstance(self, t):
@@ -200,8 +202,10 @@ class DFrame(Stub):
         DFrame._uid[0] += 1
         self.uid = DFrame._uid[0]
         w.frames.append(self)
+        self.defs: Dict[str, str] = {}   # column -> how its values were computed (columns stored as recording terms)
         if parent is not None:
             self.stores = list(parent.stores)
+            self.defs = dict(parent.defs)
 
     # ---- reads
     @property
@@ -294,6 +298,13 @@ class DFrame(Stub):
             return
         if k in self.cols and (v is None or isinstance(v, (int, float, str))):
             self.stores.append(("<all rows>", k, _val(v)))
+        from rules.colterms import CT
+        if isinstance(v, CT):
+            self.defs[k] = v.key()
+        elif isinstance(v, Opaque):
+            self.defs[k] = f"opaque:{v._what}"
+        else:
+            self.defs.pop(k, None)
         if k not in self.cols:
             self.cols.append(k)
         self.mutations.append(f"setitem:{k}")
@@ -347,7 +358,7 @@ class DFrame(Stub):
         raise AttributeError(name)
 
     def desc(self) -> Dict[str, Any]:
-        d = {"rows": self.rows.key(), "sorted": self.sorted, "stores": list(self.stores)}
+        d = {"rows": self.rows.key(), "sorted": self.sorted, "stores": list(self.stores), "column_defs": {c: v for c, v in self.defs.items() if c in self.cols}}
         if self.joined is not None:
             d["joined"] = {"how": self.joined[1], "what": self.joined[0].desc() if hasattr(self.joined[0], "desc") else type(self.joined[0]).__name__}
         return d
@@ -693,4 +704,10 @@ def judge_initialize(o: Dict[str, Any]) -> List[Tuple[str, str]]:
         bad.append(("kept", f"kept rows `{f_}` may still hold a missing temperature{' or usage' if o['with_observed'] else ''} {ctx}"))
     if K["stores"] or D["stores"]:
         bad.append(("rows", f"_initialize_data overwrites values: {K['stores'] + D['stores']} {ctx}"))
+    want = {"season": "map(index.month, settings.season._num_dict)", "day_of_week": "add(1, index.dayofweek)"}
+    for part, P in (("kept", K), ("dropped", D)):
+        for c, wv in want.items():
+            got = P.get("column_defs", {}).get(c)
+            if got != wv and not (part == "dropped" and got is None):
+                bad.append(("routing", f"the routing column `{c}` of the {part} frame is computed as `{got}`; it must be `{wv}` (the model's own season map of the calendar month; weekday 1 = Monday) {ctx}"))
     return bad
